@@ -144,6 +144,8 @@ def solve_outcomes(repo):
         def undecided(text):
             if "tmp_file" in text or ".device" in text:
                 return "tmp_file" in text
+            if text in ("output_file", "options.output_file", "self.options.output_file"):
+                return True                   # the scenario: an explicit output path was requested
             return None
         env0 = dict(module_constants(fs.module.tree))
         env0["self"] = Opaque("self")
